@@ -119,6 +119,19 @@ static void c10() {
         long nz = 0; for (size_t i = 0; i < N; ++i) for (size_t j = 0; j < N; ++j) if ((up ? (j < i) : (j > i)) && X(i, j) != 0) ++nz;
         std::printf("T %s 0 %ld", up ? "upper" : "unilower", sd); pl(res_id(A, X)); pl(res_id(X, A)); pl(inf_norm(A)); pl(inf_norm(X)); std::printf(" %ld\n", nz);
     }
+
+#if NN <= 4 && NN >= 2
+    // closed forms on integer matrices, compared exactly with the kernels translated from the source (Gen/GeneratedLinalg.v):
+    //   C <seed> <unimodular?> : A : adj(A) : cof(A) : det(A) : inverse(A) (printed only for the unimodular family, where it is integral)
+    for (int fam = 0; fam <= 2; fam += 2) for (long sd = 0; sd < 2 * NSEEDS; ++sd) {
+        Tensor<T,N,N> A = gen(fam, sd);
+        if (fam == 0) { vh_lcg g(sd * 7 + 3); for (size_t i = 0; i < N; ++i) for (size_t j = 0; j < N; ++j) A(i, j) = (T)((long)(g.next() % 19UL) - 9); }
+        Tensor<T,N,N> Ad = adj(A); Tensor<T,N,N> Co = cof(A); const T d = determinant(A);
+        std::printf("C %ld %d", sd, fam == 2 ? 1 : 0); praw(A); praw(Ad); praw(Co); std::printf(" :"); vh_put(d);
+        if (fam == 2) { Tensor<T,N,N> X = inverse(A); praw(X); }
+        std::printf("\n");
+    }
+#endif
 #if NN <= 9
     for (long sd = 0; sd < NSEEDS; ++sd) {                                     // batched inverse over the trailing two axes
         Tensor<T,3,N,N> Bt; Tensor<T,N,N> As[3];
@@ -160,7 +173,29 @@ template<LUCompType S> static void lu_piv(const char* name) {
           Tensor<T,N,N> Uc = U; Tensor<T,N,N> Rc = reconstruct(L, Uc, P); report_lu(name, "matrix", fam, sd, A, L, U, perm, ok, Rc, growth_piv(A)); }
     }
 }
-static void c11() { lu_nopiv<LUCompType::BlockLU>("BlockLU"); lu_nopiv<LUCompType::SimpleLU>("SimpleLU"); lu_piv<LUCompType::BlockLUPiv>("BlockLUPiv"); lu_piv<LUCompType::SimpleLUPiv>("SimpleLUPiv"); }
+
+// raw records of the permutation helpers on small-integer matrices (ties included), compared exactly with the Coq model (Model/Pivot.v):
+//   P <seed> : A : perm (vector pivot) : apply_pivot(A,perm) : reconstruct(A,perm) : reconstruct_colwise(A,perm) : perm read off the matrix pivot
+//     : apply_pivot(A,Pmatrix) : apply_pivot_inplace(A,perm) : apply_pivot_inplace(A,Pmatrix) : perm of pivot(expression)
+static void piv_records() {
+#if NN <= 17
+    for (long sd = 0; sd < 2 * NSEEDS; ++sd) {
+        vh_lcg g(sd * 104729 + N * 31 + 7); Tensor<T,N,N> A;
+        const int span = (sd % 2) ? 3 : 40;                                   // narrow span: many ties in a column
+        for (size_t i = 0; i < N; ++i) for (size_t j = 0; j < N; ++j) A(i, j) = (T)((long)(g.next() % (unsigned long)(2 * span + 1)) - span);
+        Tensor<size_t,N> P; pivot_inplace(A, P); Tensor<T,N,N> Pm; pivot_inplace(A, Pm);
+        auto pperm = [](const Tensor<size_t,N>& Q) { std::printf(" :"); for (size_t i = 0; i < N; ++i) std::printf(" %zu", Q(i)); };
+        std::printf("P %ld", sd); praw(A); pperm(P);
+        { Tensor<T,N,N> B = apply_pivot(A, P); praw(B); } { Tensor<T,N,N> B = reconstruct(A, P); praw(B); } { Tensor<T,N,N> B = reconstruct_colwise(A, P); praw(B); }
+        std::printf(" :"); for (size_t i = 0; i < N; ++i) { long col = -1; int ones = 0; for (size_t j = 0; j < N; ++j) { if (Pm(i, j) == (T)1) { col = (long)j; ++ones; } else if (Pm(i, j) != (T)0) ones = 99; } std::printf(" %ld", ones == 1 ? col : -1L); }
+        { Tensor<T,N,N> B = apply_pivot(A, Pm); praw(B); }
+        { Tensor<T,N,N> B = A; apply_pivot_inplace(B, P); praw(B); } { Tensor<T,N,N> B = A; apply_pivot_inplace(B, Pm); praw(B); }
+        { Tensor<size_t,N> Q = pivot<PivType::V>(A + (T)0 * A); pperm(Q); }
+        std::printf("\n");
+    }
+#endif
+}
+static void c11() { piv_records(); lu_nopiv<LUCompType::BlockLU>("BlockLU"); lu_nopiv<LUCompType::SimpleLU>("SimpleLU"); lu_piv<LUCompType::BlockLUPiv>("BlockLUPiv"); lu_piv<LUCompType::SimpleLUPiv>("SimpleLUPiv"); }
 #endif
 
 #if WHICH == 12
